@@ -92,7 +92,8 @@ def run_worker_script(answers):
 
     class W(WorkerProcess):
         def execute_job(self, job):
-            return job + 100
+            # every fourth job has a result that is falsy in Python without being None (a count of 0): a result like any other
+            return 0 if job % 4 == 3 else job + 100
 
     w = W(InQ(), OutQ(), Ev())
     try:
